@@ -1,0 +1,29 @@
+//go:build verif
+
+package spec_2022
+
+// Contracts for the gcv verifier (/verif); compiled only with build tag `verif`.
+// The generated parsers in zz_generated.go carry the schematic contract /verif/gcv/schemas/parsers.schema.
+
+//@ func ReadPacket
+//@   invariant reader == nil || enc.rdWfB(reader)
+//@   modifies reader.(*enc.BufferReader).pos
+//@   ensures result2 == nil ==> result0 != nil && result1 != nil
+//@   ensures result2 == nil ==> result0.Interest != nil || result0.Data != nil || result0.LpPacket != nil
+//@   ensures result2 == nil && result0.Data != nil ==> result0.Data.NameV != nil
+//@   ensures result2 == nil && result0.Data == nil && result0.Interest != nil ==> result0.Interest.NameV != nil
+//@   ensures result2 == nil && result0.Data == nil && result0.Interest == nil ==> result0.LpPacket.Fragment != nil
+
+//@ func checkInterest
+//@   requires val != nil && context != nil
+//@   ensures result == nil ==> val.NameV != nil
+
+//@ func (Spec).ReadData
+//@   invariant reader == nil || enc.rdWfB(reader)
+//@   modifies reader.(*enc.BufferReader).pos
+
+//@ func (Spec).ReadInterest
+//@   invariant reader == nil || enc.rdWfB(reader)
+//@   modifies reader.(*enc.BufferReader).pos
+
+//@ func (*Data).FinalBlockID
